@@ -169,6 +169,9 @@ class Ed25519Key(PKey):
             # A copy of the public key, again, ignore.
             public = message.get_binary()
             key_data = message.get_binary()
+            if len(key_data) != 64:
+                # 32 bytes of seed plus 32 bytes of public key
+                raise SSHException("Invalid key")
             # The second half of the key data is yet another copy of the public
             # key...
             signing_key = nacl.signing.SigningKey(key_data[:32])
